@@ -454,9 +454,9 @@ def main(tier):
     quick = tier == "quick"
     nm = len(gen_messages(tier))
     res = core.Result()
-    n_md = core.scaled(30 if quick else nm)
-    n_mb = core.scaled(34 if quick else nm)
-    n_cc = core.scaled(120 if quick else 3000)
+    n_md = core.scaled(nm if quick else nm)
+    n_mb = core.scaled(60 if quick else nm)
+    n_cc = core.scaled(600 if quick else 6000)
     res.merge(core.pmap(maildir_worker, [(b.dir, tier, lo, hi) for lo, hi in core.chunks(n_md, 30)], timeout=3000))
     res.merge(core.pmap(mbox_worker, [(b.dir, tier, lo, hi) for lo, hi in core.chunks(n_mb, 30)], timeout=3000))
     res.merge(core.pmap(mbox_concurrent_worker, [(b.dir, tier, lo, hi) for lo, hi in core.chunks(n_cc, 16)], timeout=3000))
